@@ -178,6 +178,23 @@ fn eval(spec: &'static Spec, syms: &[Sym], h: &[usize], color: u32, rep: Option<
             }
         }
     }
+    // "each image plane": the planes this driver's clear_frame fills on a freshly constructed driver are
+    // the image planes it maintains; no history or setting may make the clear skip one of them
+    if touched < nplanes {
+        let mut fresh = Rig::simple(spec);
+        let _ = fresh.apply(&Op::arg(K::SetBg, color));
+        fresh.board.borrow_mut().chip_mut().mark();
+        if fresh.apply(&Op::new(K::Clear)).is_ok() {
+            let fb = fresh.board.borrow();
+            for p in 0..nplanes {
+                let here = chip.planes[p].writes > 0 || chip.planes[p].pattern_fills > 0;
+                let there = fb.chip().planes[p].writes > 0 || fb.chip().planes[p].pattern_fills > 0;
+                if there && !here && p != primary {
+                    out.push(("plane-not-written".to_string(), vec![format!("plane={}", p)], format!("clear_frame fills plane {} on a freshly constructed driver but left it untouched here", p)));
+                }
+            }
+        }
+    }
     if chip.planes[primary].writes == 0 && chip.planes[primary].pattern_fills == 0 {
         out.push(("primary-not-written".to_string(), vec![], format!("clear_frame did not write the primary plane {} ({} planes touched)", primary, touched)));
     } else if to.is_ok() {
@@ -197,6 +214,7 @@ fn eval(spec: &'static Spec, syms: &[Sym], h: &[usize], color: u32, rep: Option<
 
 pub fn run(ctx: &Ctx) -> Report {
     let mut cases = Vec::new();
+    let mut rng = Rng::derive(ctx.seed, 0xC07);
     for spec in panels_for(ctx) {
         let syms = syms(spec);
         let maxlen = if ctx.tier_thorough { 2 } else { 1 };
@@ -206,6 +224,18 @@ pub fn run(ctx: &Ctx) -> Report {
                 for h in histories(spec, &syms, n) {
                     cases.push(Case { spec, h, color });
                 }
+            }
+            // seeded random walks over the alphabet (longer than the exhaustive part)
+            let big = spec.w * spec.h > 300 * 400;
+            let nwalk = match (ctx.tier_thorough, big) {
+                (false, true) => 15,
+                (false, false) => 80,
+                (true, true) => 300,
+                (true, false) => 3000,
+            };
+            for j in 0..nwalk {
+                let n = if ctx.tier_thorough { 3 + j % 6 } else { 2 + j % 3 };
+                cases.push(Case { spec, h: random_history(spec, &syms, n, &mut rng), color });
             }
         }
     }
